@@ -197,6 +197,15 @@ func (c *Contract) allProps() []string {
 			add(p)
 		}
 	}
+	for _, l := range c.Directives["site"] {
+		if i := strings.Index(l, " assert "); i >= 0 {
+			if m := tagRe.FindStringSubmatch(l[i+len(" assert "):]); m != nil {
+				for _, p := range strings.FieldsFunc(m[1], func(r rune) bool { return r == ' ' || r == ',' }) {
+					add(p)
+				}
+			}
+		}
+	}
 	return out
 }
 
